@@ -125,8 +125,8 @@ class _Gen:
         return "(i32.lt_u (local.tee 3 (i32.add (local.get 3) (i32.const 1))) (i32.const 3))"
 
     def upd(self):
-        op = self.r.choice(["add", "xor", "sub", "mul"])
-        return f"(local.set 2 (i32.{op} (i32.mul (local.get 2) (i32.const 3)) (i32.const {self.const()})))"
+        op = self.r.choice(["add", "xor", "sub", "or"])
+        return f"(local.set 2 (i32.{op} (i32.shl (local.get 2) (i32.const 1)) (i32.const {self.const()})))"
 
     def branch_operand(self, labels, d):
         """value operands needed to branch to label d"""
@@ -215,7 +215,7 @@ class _Gen:
 
 
 def cf_names(tier, seed):
-    n = 60 if tier == "quick" else 600
+    n = 48 if tier == "quick" else 600
     return [f"cf:{seed * 10000 + k}" for k in range(n)]
 
 
